@@ -151,14 +151,21 @@ def bank_problems(i: int, e: dict, index: dict):
                     ob(k == "ok", "IBAN-around-bank-rejected", "accepted", (text, k, o))
                     if k == "ok":
                         first = index[(cc, code)][0]
-                        ob(o.bank == first and o.bank.get("bank_code") == code,
-                           "bank-not-found-again-from-IBAN", first, o.bank)
+                        kk, bank_ = lib.outcome(lambda: o.bank)
+                        ob(kk == "ok" and bank_ == first and bank_.get("bank_code") == code,
+                           "bank-not-found-again-from-IBAN", first, bank_)
                         for sig, e2, o2 in c12.generated_iban_problems(index, cc, code):
                             ob(False, sig, e2, o2)
                         n += 1
                         cands = lookup.candidates(cc, code)
-                        got = o.bic
-                        if cands:
+                        kb, got = lib.outcome(lambda: o.bic)
+                        if kb != "ok":
+                            ob(False, "iban.bic-raises-for-a-listed-bank", "BIC or None", (kb, got))
+                            got = None
+                            cands = None
+                        if cands is None:
+                            pass
+                        elif cands:
                             ob(got is not None and lookup.selection_ok(cands, str(got)),
                                "bic-not-found-again-from-IBAN", cands, None if got is None else str(got))
                         else:
